@@ -1,6 +1,7 @@
 import GrolProofs.LexNext
 import GrolProofs.LexString
 import GrolProofs.LexLines
+import GrolProofs.LexTrim
 import Grol.LexSuite
 /-
 C16 — the lexer is lossless: tokens tile the input.
@@ -852,6 +853,114 @@ newline, then `x`: after both tokens `lineNumber` is still 1 although a newline 
 example : (iter 2 (State.new #[96, 10, 96, 32, 120] false)).lineNumber = 1
     ∧ countNL #[96, 10, 96, 32, 120] (iter 2 (State.new #[96, 10, 96, 32, 120] false)).pos = 1 := by
   decide +kernel
+
+/-! ### (3c') line-comment literal = TrimSpace(span) in the statement's sense; literals that end a line -/
+
+/-- the literal of a LINECOMMENT token passes the statement's `isTrimOf` check on its span (and by
+`isTrimOf_iff` it is the only literal that does) -/
+theorem C16.linecomment_literal (s : State) (h1 : (next s).1.src = .intern) (h2 : (next s).1.type = LINECOMMENT) :
+    isTrimOf (next s).1.lit (spanOf s.input (start s) (next s).2.pos) = true := by
+  rw [(C16.linecomment_span s h1 h2).1]
+  exact isTrimOf_trimSpaceRight _
+
+theorem mem_spanL {input : Array UInt8} {a b : Nat} {x : UInt8} (h : x ∈ spanL input a b) :
+    ∃ i, a ≤ i ∧ i < b ∧ x = peekAt input i := by
+  obtain ⟨i, hi⟩ := List.mem_iff_getElem?.mp h
+  rw [spanL_getElem?] at hi
+  split at hi
+  · rename_i hlt
+    refine ⟨a + i, by omega, by omega, ?_⟩
+    unfold peekAt; rw [hi]; rfl
+  · cases hi
+
+theorem getLast?_mem {l : Bytes} {x : UInt8} (h : l.getLast? = some x) : x ∈ l := by
+  rw [List.getLast?_eq_getElem?] at h
+  exact List.mem_iff_getElem?.mpr ⟨_, h⟩
+
+/-- a non-empty span without newline bytes: non-empty, last byte is not a newline -/
+theorem span_litOK {input : Array UInt8} {a b : Nat} (h1 : a < b) (h2 : b ≤ input.size)
+    (hn : ∀ i, a ≤ i → i < b → peekAt input i ≠ 10) :
+    spanL input a b ≠ [] ∧ (spanL input a b).getLast? ≠ some 10 := by
+  constructor
+  · intro h
+    have := congrArg List.length h
+    rw [spanL_length] at this
+    simp at this; omega
+  · intro h
+    obtain ⟨i, hi1, hi2, hx⟩ := mem_spanL (getLast?_mem h)
+    exact hn i hi1 hi2 hx.symm
+
+theorem spaces_head_ne_slash {l : Bytes} (h : Spaces l) : l[0]? ≠ some 47 := by
+  cases h with
+  | nil => simp
+  | cons q l' hq _ =>
+    have hne := seq_ne_nil q hq
+    have hh := seq_head_ne_slash q hq
+    cases q with
+    | nil => exact absurd rfl hne
+    | cons a t => simpa using hh
+
+theorem cTokens_key_nl : ∀ p ∈ cTokens, p.1 ≠ 10 := by decide
+theorem c2Tokens_key_nl : ∀ p ∈ c2Tokens, p.1.2 ≠ 10 := by decide
+
+/-- operators, identifiers, keywords, numbers and line comments have a non-empty literal that does
+not end in a newline byte (what the printer needs of the last token of a line) -/
+theorem C16.literal_ends_line (s : State)
+    (hk : (next s).1.src = .char1 ∨ (next s).1.src = .char2 ∨ (next s).1.src = .lookup ∨
+      ((next s).1.src = .intern ∧ ((next s).1.type = INT ∨ (next s).1.type = FLOAT ∨ (next s).1.type = LINECOMMENT))) :
+    (next s).1.lit ≠ [] ∧ (next s).1.lit.getLast? ≠ some 10 := by
+  cases C16.cases s with
+  | inl m =>
+    rw [m.1] at hk
+    simp [eolEof] at hk
+  | inr ok =>
+    have wf := ok.wf
+    rcases hk with h | h | h | ⟨h, hty⟩
+    · unfold Tok.WF at wf; rw [h] at wf
+      obtain ⟨c, hl, hc⟩ := wf
+      rw [hl]
+      exact ⟨by simp, by simp; exact cTokens_key_nl _ (lookup_mem _ _ _ hc)⟩
+    · unfold Tok.WF at wf; rw [h] at wf
+      obtain ⟨a, b, hl, hc⟩ := wf
+      rw [hl]
+      exact ⟨by simp, by simp; exact c2Tokens_key_nl _ (lookup_mem _ _ _ hc)⟩
+    · rw [ok.lit (Or.inr (Or.inr (Or.inl h)))]
+      exact span_litOK ok.lt ok.le (ok.nonl (Or.inl h))
+    · rcases hty with hty | hty | hty
+      · rw [ok.lit (Or.inr (Or.inr (Or.inr ⟨h, Or.inl hty⟩)))]
+        exact span_litOK ok.lt ok.le (ok.nonl (Or.inr ⟨h, Or.inl hty⟩))
+      · rw [ok.lit (Or.inr (Or.inr (Or.inr ⟨h, Or.inr (Or.inl hty)⟩)))]
+        exact span_litOK ok.lt ok.le (ok.nonl (Or.inr ⟨h, Or.inr hty⟩))
+      · obtain ⟨hl, h47, h47', hall, _⟩ := ok.lc h hty
+        obtain ⟨suf, hs, he, _⟩ := trimSpaceRight_spec (spanL s.input (start s) (next s).2.pos)
+        rw [← hl] at he
+        -- no newline in the span
+        have hn : ∀ i, start s ≤ i → i < (next s).2.pos → peekAt s.input i ≠ 10 := by
+          intro i hi1 hi2
+          by_cases hi : i = start s
+          · rw [hi, h47]; decide
+          · have := hall i (by omega) hi2
+            intro h10; rw [h10] at this; revert this; decide
+        constructor
+        · intro hnil
+          rw [hnil, List.nil_append] at he
+          -- the span would be a run of space runes, but it starts with '/'
+          have hsp : Spaces (spanL s.input (start s) (next s).2.pos) := by rw [he]; exact hs
+          have hhead : (spanL s.input (start s) (next s).2.pos)[0]? = some 47 := by
+            rw [spanL_getElem?]
+            have := ok.lt; have := ok.le
+            rw [if_pos (by omega)]
+            have hlt : start s < s.input.size := by omega
+            simp only [Nat.add_zero]
+            rw [Array.getElem?_eq_getElem hlt]
+            rw [peekAt_of_lt hlt] at h47
+            rw [h47]
+          exact spaces_head_ne_slash hsp hhead
+        · intro hlast
+          have hm := getLast?_mem hlast
+          have : (10 : UInt8) ∈ spanL s.input (start s) (next s).2.pos := by rw [he]; exact List.mem_append_left _ hm
+          obtain ⟨i, hi1, hi2, hx⟩ := mem_spanL this
+          exact hn i hi1 hi2 hx.symm
 
 /-! ### non-vacuity: the three repaired inputs, evaluated by the kernel -/
 
